@@ -294,6 +294,9 @@ def run(rep, prop, which):
                                      f'LazyDs/Props/{prop}.lean are therefore not tied to this code',
             'model_reply': rp, 'searched_runs_for_failing_schedule': len(cases)}), no_input=True)
 
+    if prop in ('C04', 'C05', 'C06'):
+        import poolrun
+        poolrun.run(prop, rep, rng)
     rep.coverage.update({
         'evaluations': len(cases),
         'distinct_nontrivial': len(distinct),
